@@ -148,6 +148,7 @@ type Interp struct {
 	speculating bool
 	merges   int
 	pathViol []*Violation
+	fmtLazy  bool
 	initStored map[*ssa.Global]bool
 
 	// per worker accumulators
@@ -244,6 +245,15 @@ func (in *Interp) branch(c *T) bool {
 	in.prefix = append(in.prefix, dTrue)
 	in.assume(c)
 	return true
+}
+
+// branchTrue is branch() for conditions that are expected to hold (bounds, nil, zero checks):
+// the negation is queried first so that the common case costs one query.
+func (in *Interp) branchTrue(c *T) bool {
+	if c.IsConst() || in.pos < len(in.prefix) || in.speculating || in.initMode > 0 {
+		return in.branch(c)
+	}
+	return !in.branch(in.tb.Not(c))
 }
 
 // choice forks over n alternatives that are all feasible by construction.
@@ -834,6 +844,13 @@ func (fr *frame) visit(instr ssa.Instruction) cont {
 		in.chanSend(fr, fr.get(instr.Chan), fr.get(instr.X))
 	case *ssa.Store:
 		p := fr.get(instr.Addr)
+		if sp, isSym := p.(*SymPtr); isSym {
+			v := fr.get(instr.Val).(*T)
+			for i := range sp.arr {
+				sp.arr[i] = in.tb.Ite(in.tb.Eq(sp.idx, in.tb.BV(64, uint64(i))), v, sp.arr[i].(*T))
+			}
+			break
+		}
 		pp, ok := p.(*Value)
 		if !ok {
 			in.unsupported("store through %T in %s", p, fr.fn)
@@ -962,6 +979,17 @@ func (fr *frame) visit(instr ssa.Instruction) cont {
 		default:
 			in.unsupported("IndexAddr on %T", x)
 		}
+		if it, ok := fr.get(instr.Index).(*T); ok && !it.IsConst() && len(arr) > 0 && len(arr) <= 4096 {
+			if _, scalar := arr[0].(*T); scalar {
+				// symbolic element address over scalars: loads become ite-chains, stores conditional updates
+				t64 := in.to64(it, instr.Index.Type())
+				if !in.branchTrue(in.tb.ULt(t64, in.tb.BV(64, uint64(len(arr))))) {
+					fr.rtPanic(fmt.Sprintf("index out of range [symbolic] with length %d", len(arr)))
+				}
+				fr.set(instr, &SymPtr{arr: arr, idx: t64})
+				break
+			}
+		}
 		i := in.indexIn(fr, fr.get(instr.Index), instr.Index.Type(), len(arr), true)
 		fr.set(instr, &arr[i])
 	case *ssa.Index:
@@ -1057,7 +1085,7 @@ func (in *Interp) indexIn(fr *frame, idx Value, ity types.Type, n int, concretiz
 		return int(i)
 	}
 	inb := in.tb.ULt(t, in.tb.BV(64, uint64(n)))
-	if !in.branch(inb) {
+	if !in.branchTrue(inb) {
 		fr.rtPanic(fmt.Sprintf("index out of range [symbolic] with length %d", n))
 	}
 	if n > in.cfg.MaxConcretize {
@@ -1073,7 +1101,7 @@ func (in *Interp) indexValue(fr *frame, arr []Value, idx Value, ity types.Type) 
 	if !t.IsConst() && len(arr) > 0 && len(arr) <= 256 {
 		if _, ok := arr[0].(*T); ok {
 			inb := in.tb.ULt(t, in.tb.BV(64, uint64(len(arr))))
-			if !in.branch(inb) {
+			if !in.branchTrue(inb) {
 				fr.rtPanic("index out of range [symbolic]")
 			}
 			res := arr[len(arr)-1].(*T)
@@ -1165,6 +1193,13 @@ func (in *Interp) callFunc(caller *frame, fn *ssa.Function, args []Value, env []
 	if r, ok := in.sh.redirect[name]; ok && r != fn {
 		// a harness-provided replacement with the same parameter list (receiver first)
 		return in.callSSA(caller, r, args, nil)
+	}
+	if mname, ok := modelRedirects[name]; ok && in.initMode == 0 {
+		if p := in.prog.ImportedPackage(rtPkg); p != nil {
+			if mf := p.Func(mname); mf != nil {
+				return in.callSSA(caller, mf, args, nil)
+			}
+		}
 	}
 	if h, ok := intrinsics[name]; ok {
 		return h(in, caller, fn, args)
@@ -1502,7 +1537,7 @@ func (in *Interp) sliceBound(fr *frame, v Value, ty types.Type, capv int) int {
 		return int(i)
 	}
 	inb := in.tb.ULe(t, in.tb.BV(64, uint64(capv)))
-	if !in.branch(inb) {
+	if !in.branchTrue(inb) {
 		fr.rtPanic(fmt.Sprintf("slice bounds out of range [symbolic] with capacity %d", capv))
 	}
 	if capv+1 > in.cfg.MaxConcretize {
@@ -1717,12 +1752,17 @@ func (it *strIter) next(fr *frame) Value {
 		return Tuple{in.tb.tru, in.tb.BV(64, uint64(start)), in.tb.BV(32, b0.k)}
 	}
 	if !b0.IsConst() {
-		// symbolic byte: ASCII case stays symbolic; the non-ASCII case is outside the supported model
+		// symbolic lead byte: ASCII stays symbolic; otherwise run the real utf8 decoder symbolically
 		if in.branch(in.tb.ULt(b0, in.tb.BV(8, 0x80))) {
 			it.pos++
 			return Tuple{in.tb.tru, in.tb.BV(64, uint64(start)), in.tb.ZExt(b0, 32)}
 		}
-		in.unsupported("range over a string with a symbolic non-ASCII byte")
+		return it.decodeSym(fr, start)
+	}
+	for j := it.pos; j < len(it.s.b) && j < it.pos+4; j++ {
+		if !it.s.b[j].IsConst() {
+			return it.decodeSym(fr, start)
+		}
 	}
 	// concrete non-ASCII: decode with Go
 	rest := make([]byte, 0, 4)
@@ -1735,6 +1775,18 @@ func (it *strIter) next(fr *frame) Value {
 	r, size := decodeRune(rest)
 	it.pos += size
 	return Tuple{in.tb.tru, in.tb.BV(64, uint64(start)), in.tb.BV(32, uint64(r))}
+}
+
+func (it *strIter) decodeSym(fr *frame, start int) Value {
+	in := it.in
+	p := in.prog.ImportedPackage("unicode/utf8")
+	if p == nil {
+		in.unsupported("range over a symbolic non-ASCII string (unicode/utf8 not loaded)")
+	}
+	r := in.call(fr, p.Func("DecodeRuneInString"), []Value{Str{b: it.s.b[it.pos:]}}).(Tuple)
+	size := in.concreteInt(r[1], "rune size")
+	it.pos += size
+	return Tuple{in.tb.tru, in.tb.BV(64, uint64(start)), r[0]}
 }
 
 func decodeRune(b []byte) (rune, int) {
